@@ -139,6 +139,13 @@ impl<S: Read + Write> RdpClient<S> {
     pub fn shutdown(&mut self) -> RdpResult<()> {
         self.mcs.shutdown()
     }
+
+    /// True if data already received from the server are waiting to be read
+    /// A caller that poll the socket before calling read must call read again
+    /// while this is true : the socket will not signal data the TLS layer already took
+    pub fn has_buffered_data(&self) -> bool {
+        self.mcs.has_buffered_data()
+    }
 }
 
 pub struct Connector {
